@@ -490,12 +490,18 @@ def rstep (m : Model) (e : Enc) (s : RState) (line : Bytes) : Except (RState × 
 def RState.file (s : RState) : File Vals :=
   { header := s.header, cashLetters := s.cashLetters, control := s.control }
 
+/-- minimum record length: 80, except records 27 and 34 (46 bytes plus their image reference key) -/
+def minLen (l : Bytes) : Nat :=
+  match kindOfLine l with
+  | some .cdAddB | some .rdAddC => 46
+  | _ => 80
+
 /-- the loop of `Reader.Read` over already split lines; returns the (partial) file and the error -/
 def readLines (m : Model) (e : Enc) : List Bytes → RState → RState × Option RErr
   | [], s => (s, none)
   | l :: r, s =>
     let s := { s with lineNum := s.lineNum + 1 }
-    if l.length < 80 then (s, some (s.err .file "RecordLength"))
+    if l.length < minLen l then (s, some (s.err .file "RecordLength"))
     else match rstep m e s l with
       | .ok s' => readLines m e r s'
       -- `Reader.error` stamps `r.lineNum`, which `parseLine` never changes
